@@ -178,9 +178,13 @@ def dfs(harness, params, roots, bound, st, max_exec=None, deadline=None, known=(
             stack.extend(children(ex, bound))
 
 
-def explore(harness, param_list, bound, max_exec_per_param=None, deadline=None, jobs=None):
+def explore(harness, param_list, bound, max_exec_per_param=None, deadline=None, jobs=None, budget_s=None):
     """explore every params in param_list to the deviation bound, in parallel.
+    budget_s: wall-clock budget; when it runs out the exploration stops and reports capped (exhaustive false).
     Returns Stats."""
+    if budget_s is not None:
+        deadline = time.time() + budget_s
+    pool_timeout = 3000 if budget_s is None else budget_s + 900
     jobs = jobs or ncpu()
     STOP.value = 0
     known = set(f["key"] for f in known_findings() if f.get("status") == "known")
@@ -210,7 +214,7 @@ def explore(harness, param_list, bound, max_exec_per_param=None, deadline=None, 
         return st
 
     total = Stats()
-    seeds = pmap(seed_work, param_list, jobs)
+    seeds = pmap(seed_work, param_list, jobs, timeout=pool_timeout)
     tasks = []
     for params, (st, kids) in zip(param_list, seeds):
         total.merge(st)
@@ -218,7 +222,7 @@ def explore(harness, param_list, bound, max_exec_per_param=None, deadline=None, 
             tasks.append((params, [r]))
     # heavy subtrees first: deeper bounds and shorter prefixes (closer to the root) are bigger
     tasks.sort(key=lambda t: (-t[0].get("bound", bound), sum(1 for c, n in t[1][0] if c), len(t[1][0])))
-    for st in pmap(sub_work, tasks, jobs):
+    for st in pmap(sub_work, tasks, jobs, timeout=pool_timeout):
         total.merge(st)
     try:
         total.audit = audit(harness, param_list, jobs)
